@@ -233,10 +233,7 @@ def activity(ctx, prog, viol):
         return outs
 
     def err_kind(ex, st, fn, argv):
-        e = deref(ex, st, argv[0])
-        wb = lit_text(e.fields[0].s) == '"WouldBlock"'
-        idx = wouldblock_index(prog)
-        return [(st, Enum(idx if wb else idx + 1, {}, 'ErrorKind'))]
+        return io_error_kind_stub(prog)(ex, st, fn, argv)
     ex2 = mk_ex(ctx, prog, extra=[(r'^<S as (std::io::)?Write>::write$|^<VerifStream as (std::io::)?Write>::write$', write_stub), (r'^(std::io::)?(error::)?Error::kind$', err_kind),
                                   (r'ResultExt<.*>>::context::<', ctx_stub)])
     f2 = prog.method('Inner', 'write_to_stream')
